@@ -54,19 +54,19 @@ _WN = ('Bounded: 2-3 modules, stated BFS depth and deviation budget (armed re-en
        'Real kernel pipes/epoll; time is virtual. Cross-module order is never assumed. ASan/UBSan build; allocator and descriptor ledgers are exact per execution.')
 _WORLD_TXT = {
  'C01': 'Lifecycle histories (register with every eval/start callback behaviour, start/pause/resume/stop/deregister legal and illegal in every state, poison pill, tell, dispatch, quit, re-entrant stop/deregister/pause/quit/tell armed inside on_eval/on_start/on_stop/on_evt) are enumerated; the monitor checks documented edges, refusals without effect, callback pairing, no handler unless RUNNING, evaluation passes (every IDLE module with absent/true eval is started whatever other evals return) and the running-module count after every call.',
- 'C02': 'Populations in every state mix, literal/regex subscriptions, tell/publish/broadcast with and without AUTOFREE, pause/resume/stop/deregister/unsubscribe of recipients, loop steps, quit and loop end, injected full mailbox: the monitor computes the eligible set at send time, matches every delivery against a pending message (sender, topic, payload pointer, system flag), checks obligations at quiescence and loop end, discards, and exactly-once release of auto-free payloads through the allocator ledger. Fixed capacity runs (1..9000 pending messages, plain and AUTOFREE) exercise the real 8192-pointer pipe.',
+ 'C02': 'Populations in every state mix, literal/regex subscriptions, tell/publish/broadcast with and without AUTOFREE, pause/resume/stop/deregister/unsubscribe of recipients, loop steps, quit and loop end, injected full mailbox: the monitor computes the eligible set at send time, matches every delivery against a pending message (sender, topic, payload pointer, system flag), checks obligations at quiescence and loop end, discards, and exactly-once release of auto-free payloads through the allocator ledger. Fixed capacity runs (1..9000 pending messages, plain and AUTOFREE)  exercise the real 8192-pointer pipe. One-shot subscriptions (profile C02O): used up by the first message sent under them - whether the receive loop or the final flush hands it over - and only that subscription object.',
  'C03': 'Descriptor and timer sources plus messages on two modules, every subset/order of ready sources per poll (by interleaving make-readable/advance with dispatch), quit/stop/pause armed in handlers, errno left behind by handlers, injected EINTR/EBADF: every readiness must reach its owner once with the registration user pointer, one-shot sources fire once and disappear, the dispatch-driven loop returns only for stated reasons with the requested code. A second, in-process part enumerates every program of <=4 environment/user steps x <=1 scripted handler reaction and runs each through the blocking m_ctx_loop() (environment acting inside the blocking poll) and through m_ctx_dispatch(): deliveries, stop callbacks and return code must be identical.',
- 'C04': 'The union alphabet of the core world (lifecycle, registration with refusing start, tell/publish/broadcast with AUTOFREE, poison pill, subscriptions, descriptor and timer sources with AUTOCLOSE/ONESHOT, stash/unstash, become, batching, user references on modules and retained events released in every order, injected full mailbox) with up to two armed re-entrant callback actions (stop/deregister/pause/unsubscribe/tell/publish/stash/unstash/retain/quit in any callback): every execution runs under ASan/UBSan with the ledger allocator, ends with the teardown probe (context deregistered, every user reference dropped) and must leave no outstanding allocation, no double/foreign free, zombies answering name/state queries while referenced.',
- 'C07': 'Context register/deregister/finalize/dispatch/quit interleaved with module registration, lifecycle and user references, context calls on a thread without context, deregistration armed inside callbacks: second register EEXIST, teardown stops and zombifies every module (on_stop iff RUNNING/PAUSED), looping context refuses, automatic release of non persistent contexts (idle: at once; looping: at loop stop), finalize gate, fresh register after release; allocator ledger empty after teardown.',
+ 'C04': 'The union alphabet of the core world (lifecycle, registration with refusing start, tell/publish/broadcast with AUTOFREE, poison pill, subscriptions, descriptor and timer sources with AUTOCLOSE/ONESHOT, stash/unstash, become, batching, user references on modules and retained events released in every order, injected full mailbox) with up to two armed re-entrant callback actions (stop/deregister/pause/unsubscribe/tell/publish/stash/unstash/retain/quit in any callback): every execution runs under ASan/UBSan with the ledger allocator, ends with the teardown probe (context deregistered, every user reference dropped) and must leave no outstanding allocation, no double/foreign free, zombies answering name/state queries while referenced. Focused profile C04F: messages and pills in flight, stop/deregister armed in the handler, quit and final flush, depth 5. Task sources in flight under every interleaving with stop/deregister/quit (schedx, ASan).',
+ 'C07': 'Context register/deregister/finalize/dispatch/quit interleaved with module registration, lifecycle and user references, context calls on a thread without context, deregistration armed inside callbacks: second register EEXIST, teardown stops and zombifies every module (on_stop iff RUNNING/PAUSED), looping context refuses, automatic release of non persistent contexts (idle: at once; looping: at loop stop), finalize gate, fresh register after release; allocator ledger empty after teardown. Module and context names / user data handed over with the DUP and AUTOFREE flags (ledger blocks; module names collide in the context map).',
  'C08': 'Two senders/recipients, tell/publish/broadcast/system notifications/poison pill interleaved with dispatch steps, pause/resume, batch size changes and loop stop/restart: per recipient the delivered send indices must be increasing (also inside one batch and in the final flush); a pill takes effect only after everything sent earlier and nothing sent later is delivered.',
- 'C09': 'For each of seven source kinds (descriptor, timer incl. periods 1 ns..2^33+1 ns, signal, path, pid, task, threshold) and topic subscriptions: every order of register/deregister over the key menus on IDLE/RUNNING/PAUSED/STOPPED modules, bad-parameter registrations, pause/resume/stop: new key 0, present key EEXIST, remove present 0 and exactly that one, absent < 0 without effect, task deregistration refused, per-kind and total m_mod_src_len equal to the set sizes after every call.',
- 'C13': 'LOW/NORM/HIGH subscriptions, direct messages and descriptor sources, batch size 0..3 and batch timeout changes mid-stream, clock advances, pause/resume/stop: every handler invocation must end with a trigger (high priority, normal priority with the count reached, expired timeout), contain no earlier trigger, carry the accumulated events in arrival order; accumulated events containing a trigger at quiescence, or surviving an expired timeout, are violations.',
+ 'C09': 'For each of seven source kinds (descriptor, timer incl. periods 1 ns..2^33+1 ns, signal, path, pid, task, threshold) and topic subscriptions: every order of register/deregister over the key menus on IDLE/RUNNING/PAUSED/STOPPED modules, bad-parameter registrations, pause/resume/stop: new key 0, present key EEXIST, remove present 0 and exactly that one, absent < 0 without effect, task deregistration refused, per-kind and total m_mod_src_len equal to the set sizes after every call. Also: M_SRC_DUP topics and paths (caller string released at once), M_SRC_AUTOFREE user data (fresh block / the block the present source owns), repeated subscription with same and other flags, a descriptor the poll set refuses; compiled regular expressions on a ledger of their own.',
+ 'C13': 'LOW/NORM/HIGH subscriptions, direct messages and descriptor sources, batch size 0..3 and batch timeout changes mid-stream, clock advances, pause/resume/stop: every handler invocation must end with a trigger (high priority, normal priority with the count reached, expired timeout), contain no earlier trigger, carry the accumulated events in arrival order; accumulated events containing a trigger at quiescence, or surviving an expired timeout, are violations. Profile C13B adds a token bucket on the same module (refill ticks are internal timer events; refused setters must change nothing).',
  'C15': 'All module flag sets x restricted call classes (publish/tell/pill, subscribe/unsubscribe, every context call) issued from outside and from every callback kind, duplicate names with and without ALLOW_REPLACE, PERSIST while looping, reserved topics: denied calls fail without effect, replacement zombifies the old module first.',
  'C16': 'Handlers stash the first/last/all events of an invocation (normal, high-priority attempts), unstash(1,2,3,5,SIZE_MAX) from outside and inside handlers, interleaved with deliveries, become and stop/start: unstash returns min(n, stashed), one nested invocation of the current handler with exactly the oldest events, same objects and content, at most once.',
  'C17': 'become/unbecome from outside and armed inside handlers, deliveries, stash replays, stop/start cycles: every invocation goes to the top of the monitor\'s handler stack (registration handler when empty), unbecome on empty fails, both refused unless RUNNING, stop empties the stack.',
  'C18': 'Bucket configurations (1,1) (2,1) (1,3) (1000,2) and off, reconfigurations with user timers of equal/different periods registered, token consuming calls (tell, publish, subscribe, become, source changes), virtual clock advances with dispatch: successes over every interval <= burst + rate*t, refusals are EAGAIN without effect, no refusal without a bucket, and a throttled RUNNING module can act again after one second of dispatched running time (probe).',
  'C19': 'Observers subscribed to each LIBMODULE_* topic while actors go through every transition (register with eval/start variants, start, pause, resume, stop, deregister, pill, quit, loop start/stop, tick with virtual time): one owed notification per occurrence and subscribed RUNNING/PAUSED observer with the right sender and system flag, none without occurrence (self notification optional).',
- 'C20': 'Source registration/deregistration with AUTOCLOSE/DUP/ONESHOT mixes, stop / pill / refusing start / deregistration inside a handler / retained one-shot events / user references, loop runs and teardown: every close() issued by the library must hit a descriptor it opened or was granted, exactly once; after teardown no library descriptor is open; user descriptors are closed iff AUTOCLOSE.',
+ 'C20': 'Source registration/deregistration with AUTOCLOSE/DUP/ONESHOT mixes, stop / pill / refusing start / deregistration inside a handler / retained one-shot events / user references, loop runs and teardown: every close() issued by the library must hit a descriptor it opened or was granted, exactly once; after teardown no library descriptor is open; user descriptors are closed iff AUTOCLOSE (also when a present key is registered again and rejected). Profile C20T: the context tick set and cleared at top level and from callbacks, also while the loop stops.',
 }
 for _p, _t in _WORLD_TXT.items():
     META[_p] = dict(engine='seqx-world', design_ref='3, 5.5, 6/' + _p, technique=_WT, level_text=_t, level_note=_WN)
